@@ -240,6 +240,8 @@ for directed in (False, True):
 TARGETS = ["bytesio", "plain", "gz", "bz2", "fileobj"]
 DELIMS = [" ", ",", "\t", ";"]
 ENCS = ["utf-8", "ascii", "latin-1"]
+# registered under C03 too (h_c03._ctor): must exist whatever selection of the grid the thorough tier uses
+PINNED = {"rt_u_one_n2_bytesio_d0_utf8_int", "rt_d_recip_plain_d1_latin1_int"}
 k = 0
 for (directed, shape) in GRID:
     for ti, target in enumerate(TARGETS):
@@ -253,10 +255,12 @@ for (directed, shape) in GRID:
                     quick = (ti + 2 * di + 3 * ei + 5 * ni + k) % 19 == 0
                     # thorough: every third configuration of the grid (the full grid of 964 conditions was run once during the
                     # build: 964/964 confirmed, see evidence_thorough/C09_fullgrid_run.json; it takes ~4 h on 16 busy cores)
-                    if not quick and (ti + di + ei + ni + k) % 3 != 0:
+                    # (conditions in PINNED are registered by name under another property as well and are never thinned out)
+                    name = "rt_%s_%s_%s_d%d_%s_%s" % ("d" if directed else "u", shape, target, di, enc.replace("-", ""),
+                                                      {0: "int", 1: "str", 2: "uni"}[ni])
+                    if not quick and (ti + di + ei + ni + k) % 3 != 0 and name not in PINNED:
                         continue
-                    REG.add("rt_%s_%s_%s_d%d_%s_%s" % ("d" if directed else "u", shape, target, di, enc.replace("-", ""),
-                                                        {0: "int", 1: "str", 2: "uni"}[ni]), T_io, body,
+                    REG.add(name, T_io, body,
                             cfg=dict(directed=directed, shape=shape, target=target, delimiter=d, encoding=enc, names=names,
                                      L=1 if quick else 2),
                             tier="quick" if quick else "thorough", timeout=600,
@@ -275,3 +279,4 @@ for directed in (False, True):
                 cfg=dict(directed=directed, delimiter=d, L=2), tier="quick", timeout=600, tags=["present_at_q"], twins=1,
                 bounds="two rows 'u v t e' (pair 1-2 in both orders), unbounded symbolic t, spans of 1..2 instants",
                 what="a four-column row is read as the span t..e-1 (rejected rows only by the documented rule)")
+assert PINNED <= set(REG.conds), sorted(PINNED - set(REG.conds))
